@@ -28,6 +28,7 @@ type lat struct {
 	UDPBuf   int
 	LateKey  bool // keyring configured empty at creation; the key is installed afterwards
 	Frag     int  `json:",omitempty"` // > 0: every stream read returns at most this many bytes
+	Plain    bool `json:",omitempty"` // the application's transport implements only memberlist.Transport (not node-aware): the library's shim and the label wrapper's plain entry points carry the traffic
 	Rollout  bool `json:",omitempty"` // roll-out stage: the receiver already has a key (verification of incoming and outgoing traffic off), the sender has none yet
 }
 
@@ -42,6 +43,9 @@ func (l lat) String() string {
 	}
 	if l.Frag > 0 {
 		fr = fmt.Sprintf(" stream-reads<=%dB", l.Frag)
+	}
+	if l.Plain {
+		fr += " plain-transport"
 	}
 	return fmt.Sprintf("enc=%s/%d comp=%v label=%s pmax=%d newtime=%v ipnames=%v verout=%v verin=%v buf=%d latekey=%v%s", l.Enc, l.KeyLen, l.Comp, lb, l.PeerPMax, l.NewTime, l.IPNames, !l.NoVerOut, !l.NoVerIn, l.UDPBuf, l.LateKey, fr)
 }
@@ -116,6 +120,9 @@ func newPairOpt(b *bubble, l lat, intro bool, more ...func(name string, c *ml.Co
 			l.apply(c)
 			for _, f := range more {
 				f(name, c)
+			}
+			if l.Plain {
+				withPlainTransport(c)
 			}
 		})
 		must(err)
